@@ -96,8 +96,70 @@ def ifilter_section(ctx):
                                        "or left nesting deeper than one level" % case["master"])
 
 
+def mark_of_marks_section(ctx):
+    """anchor propagation into a mark LIGATURE made only of marks: the component whose OUTLINE reaches closest to the origin
+    (lower-left corner of its true bounds, off-curve handles not counted) acts as the base; the composite gets that
+    component's anchors, and the anchor by which the other mark attaches follows that other mark.  One mark is a polygon, the
+    other has a curved bottom whose handles stick out below the curve (true bottom 507.5, handles at 490); the polygon's
+    bottom is below both, between them, or above both; component order and an offset are cycled.  Oracle: fontTools'
+    BoundsPen through a TransformPen, nothing of ufo2ft"""
+    from ufo2ft.util import _GlyphSet
+    from ufo2ft.filters.propagateAnchors import PropagateAnchorsFilter
+    from fontTools.pens.boundsPen import BoundsPen
+    from fontTools.pens.transformPen import TransformPen
+    for i in range(ctx.budget(12, 24)):
+        lib = ["ufoLib2", "defcon"][i % 2]
+        poly_bottom = [500, 480, 520][(i // 2) % 3]
+        curve_first = (i // 6) % 2 == 0
+        dy = [0, 0, 15, -15][(i // 3) % 4]          # offset of the polygon component
+        curve = [[(Fr(-100), Fr(560), "curve"), (Fr(0), Fr(600), "line"), (Fr(100), Fr(560), "line"), (Fr(50), Fr(490), None), (Fr(-50), Fr(490), None)]]
+        poly = [[(Fr(-100), Fr(poly_bottom), "line"), (Fr(100), Fr(poly_bottom), "line"), (Fr(0), Fr(poly_bottom + 80), "line")]]
+        one = (Fr(1), Fr(0), Fr(0), Fr(1))
+        comps = [("tildecomb", one + (Fr(0), Fr(0))), ("acutecomb", one + (Fr(0), Fr(dy)))]
+        if not curve_first:
+            comps.reverse()
+        desc = {"glyphs": [
+            {"name": "tildecomb", "unicodes": [0x303], "width": Fr(0), "contours": curve, "components": [],
+             "anchors": [("_top", Fr(0), Fr(510)), ("top", Fr(0), Fr(640))]},
+            {"name": "acutecomb", "unicodes": [0x301], "width": Fr(0), "contours": poly, "components": [],
+             "anchors": [("_top", Fr(0), Fr(500)), ("top", Fr(0), Fr(720))]},
+            {"name": "tildecomb_acutecomb", "unicodes": [], "width": Fr(0), "contours": [], "components": comps, "anchors": []}],
+            "glyphOrder": ["tildecomb", "acutecomb", "tildecomb_acutecomb"],
+            "lib": {"public.openTypeCategories": {"tildecomb": "mark", "acutecomb": "mark", "tildecomb_acutecomb": "mark"}}}
+        case = {"filter": "PropagateAnchorsFilter", "lib": lib, "font": jsonable(desc), "level": "mark made of marks"}
+        ctx.count(); ctx.klass("propagate: mark of marks, polygon bottom %d, %s first, dy %d" % (poly_bottom, "curve" if curve_first else "polygon", dy))
+        ctx.nontriv(("mom", i, ctx.scale))
+        try:
+            font = build_font(desc, lib)
+            gset = _GlyphSet.from_layer(font)
+            PropagateAnchorsFilter()(font, gset)
+            got = [(a.name, Fr(a.x), Fr(a.y)) for a in gset["tildecomb_acutecomb"].anchors]
+            # the oracle: true outline bounds of every component as placed
+            ref = build_font(desc, lib)
+            dist = []
+            for b, t in comps:
+                bp = BoundsPen(None)
+                ref[b].draw(TransformPen(bp, tuple(float(v) for v in t)))
+                dist.append(bp.bounds[0] ** 2 + bp.bounds[1] ** 2)
+        except Exception as e:
+            ctx.spec_failure(case, "PropagateAnchorsFilter raised %s: %s\n%s" % (type(e).__name__, e, traceback.format_exc()[-1000:]))
+            continue
+        k = dist.index(min(dist))
+        by = {g["name"]: {a[0]: (a[1], a[2]) for a in g["anchors"]} for g in desc["glyphs"]}
+        (pb, pt), (mb, mt) = comps[k], comps[1 - k]
+        want = {n: geom.apply_aff(pt, xy) for n, xy in by[pb].items()}
+        want["top"] = geom.apply_aff(mt, by[mb]["top"])          # the other mark attaches by _top / top: `top` follows it
+        if sorted(got) != sorted((n, x, y) for n, (x, y) in want.items()):
+            ctx.spec_failure(dict(case, anchors=jsonable(got), outline_corner_distances=[float(d) for d in dist]),
+                             "the mark ligature got anchors %r; component %r reaches closest to the origin (squared distances of the "
+                             "outline's lower-left corners: %r), which gives %r" % (
+                                 [(n, float(x), float(y)) for n, x, y in got], pb, [float(d) for d in dist],
+                                 sorted((n, float(x), float(y)) for n, (x, y) in want.items())))
+
+
 def explore(ctx):
     ifilter_section(ctx)
+    mark_of_marks_section(ctx)
     from ufo2ft.util import _GlyphSet
     from ufo2ft.filters.decomposeComponents import DecomposeComponentsFilter
     from ufo2ft.filters.decomposeTransformedComponents import DecomposeTransformedComponentsFilter
